@@ -87,14 +87,20 @@ def _validate_data_flow_compatibility(inspection: PipelineInspection) -> None:
     Note:
         - Nodes with None input/output types are skipped (e.g., context processors)
         - Errors are added to the node that has the incompatible input type
-        - Only validates consecutive data-processing nodes
+        - Validates consecutive data-processing nodes, looking through nodes without data types
     """
-    for i in range(len(inspection.nodes) - 1):
-        current_node = inspection.nodes[i]
-        next_node = inspection.nodes[i + 1]
-
-        # Skip validation if either node has no data types (e.g., context processors)
-        if current_node.output_type is None or next_node.input_type is None:
+    current_node = None
+    for next_node in inspection.nodes:
+        # Nodes without data types (e.g., context processors) pass the data through
+        # unchanged: compare against the last node that produced data
+        if next_node.input_type is None and next_node.output_type is None:
+            continue
+        if (
+            current_node is None
+            or current_node.output_type is None
+            or next_node.input_type is None
+        ):
+            current_node = next_node
             continue
 
         # Check if output type of current node is compatible with input type of next node
@@ -105,6 +111,7 @@ def _validate_data_flow_compatibility(inspection: PipelineInspection) -> None:
                 f"but previous node (Node {current_node.index}) outputs {current_node.output_type.__name__}"
             )
             next_node.errors.append(error_msg)
+        current_node = next_node
 
 
 def validate_pipeline(inspection: PipelineInspection) -> None:
